@@ -7,6 +7,7 @@ from .. import cfgdom as G
 from .. import pdadom as P
 from . import c16, c17
 from .. import c19obj
+from .. import c19fa
 from ..core import CaseResult, outcome
 
 ID = "C19"
@@ -18,7 +19,10 @@ RULE = ("random histories of 6-25 public query/conversion calls over a pool of l
         "structure before the call. A divergence is certified by the two runs of the real code. A third of the cases are "
         "histories of 3-12 calls on one grammar object (the ten public methods that read or fill its caches): every "
         "answer and, after every call, the hidden state (_remaining_lists, _generating_symbols, _nullable_symbols, "
-        "_normal_form) are compared with the Lean state machine of the object. Non-trivial: history "
+        "_normal_form) are compared with the Lean state machine of the object; a fifth are histories on one automaton "
+        "object that is edited between queries (add / remove transitions incl. epsilon moves, start and final marks): "
+        "every query must answer as a freshly built automaton with the current structure and as the model of that "
+        "structure. Non-trivial: history "
         "with >=8 calls touching >=3 kinds of objects / >=5 calls of >=3 kinds on the grammar object.")
 EXPLANATION = "History independence is decided by running every call of a random history twice on the real code - on the live objects and on freshly rebuilt equal objects - and comparing canonical results and operand snapshots; a divergence is certified by the two runs themselves. The value-semantics of the individual operations is what C01-C18 prove; the one piece of hidden mutable state that survives a call - the in-place production counters and impact lists behind get_generating_symbols / get_nullable_symbols - is modelled step for step (Pfl/Model/CFGCounters.lean), proved to be restored by every run and to give history-independent answers (genCounters_restores, genCounters_history), and compared with the implementation's cached tables after every grammar call of a history. The grammar object as a whole is modelled as a state machine (Pfl/Model/CFGObject.lean: the four caches and the ten public methods that read or fill them, following the method bodies); history_independent proves that after any history every call answers what the grammar alone determines (the invariant: every cache holds only what a fresh object computes), and the implementation's answers and private cache fields are compared with the state machine after every call of a random history."
 THEOREMS = ["Pfl.CFG.genCounters_restores",
@@ -39,6 +43,10 @@ WORDS = [[], ["a"], ["b"], ["a", "b"], ["a", "a"], ["b", "a"], ["a", "b", "b"]]
 
 def generate(rng, tier):
     while True:
+        if rng.random() < 0.2:
+            # one automaton object edited between queries (mutators + queries), against fresh objects and the model
+            yield {"fah": c19fa.gen_history(rng)}
+            continue
         if rng.random() < 0.3:
             # one grammar object as a state machine: answers and hidden state against Pfl/Model/CFGObject.lean
             yield {"gh": c19obj.gen_history(rng)}
@@ -270,6 +278,9 @@ def run_case(case, drv):
     res = CaseResult()
     if "gh" in case:
         c19obj.run_history(case["gh"], drv, res)
+        return res
+    if "fah" in case:
+        c19fa.run_history(case["fah"], drv, res)
         return res
     specs, ops = case["pool"], case["ops"]
     kinds = {o["kind"] for o in ops}
